@@ -74,9 +74,11 @@ def code_cases(ctx):
     for cls in K.CLASSES:
         max_l = (4 if ctx.thorough else 3) if K.dimension(cls) == 2 else (3 if ctx.thorough else 2)
         if cls in ('RhombicToricCode', 'Color3DCode'):
-            sizes = K.all_sizes(cls, 2)
+            # even sides only: the smallest lattice, and lattices whose sides differ pairwise in every position
+            # (a period / bound taken from the wrong axis shows only when L_x, L_y, L_z differ)
+            sizes = K.all_sizes(cls, 2) + [(4, 2, 2), (2, 2, 4)]
             if ctx.thorough:
-                sizes += [s for s in K.all_sizes(cls, 4, n_max=200) if s not in sizes][:2]
+                sizes += [(2, 4, 2), (4, 4, 2), (2, 4, 6) if cls == 'RhombicToricCode' else (2, 4, 4)]
         elif cls == 'HollowRhombicCode':
             sizes = K.all_sizes(cls, 4 if ctx.thorough else 3, n_max=120)
         else:
@@ -84,7 +86,7 @@ def code_cases(ctx):
             if not sizes:
                 sizes = K.all_sizes(cls, max_l + 1, n_max=160)
         # rectangular included; subsample in the quick tier
-        if not ctx.thorough and len(sizes) > 6:
+        if cls not in ('RhombicToricCode', 'Color3DCode') and not ctx.thorough and len(sizes) > 6:
             idx = sorted(rng.choice(len(sizes), 6, replace=False))
             sizes = [sizes[i] for i in idx]
         for size in sizes:
